@@ -272,3 +272,5 @@ REPLAY = {"imports": replay_imports, "src": c13.replay_src, "star-import": repla
 
 from suites import thorough as _th
 GROUPS["thorough:import-programs"] = _th.bounded_from_replay("bounded/vendored-package-imports", replay_imports)
+from suites import progenum as _pg
+GROUPS["thorough:enum-import-forms"] = _th.only_thorough(_pg.g_f7)
